@@ -41,6 +41,7 @@ type C10Scn struct {
 	InputOK    bool     // the input can be processed
 	ExpectOK   bool     // the fault-free run is expected to succeed
 	RecordOnly bool     // judged on the fault-free run only (the family of structural cut points)
+	DataFile   string   // the file that holds the user's data when the input is a symbolic link to it ("" = the input itself)
 	Extra      []string // further files of a multi-file run (another member and its output): may appear, change or vanish
 	EitherExit bool     // the statement does not say whether the fault-free run succeeds (a stale temporary file is in the way): both exit classes are judged by their own rules
 }
@@ -85,6 +86,9 @@ var c10Plain = map[string][]byte{
 }
 
 func init() {
+	// the bytes of a small .xz file as "plain" data (a symbolic link may point at a file that
+	// happens to carry the name of the output)
+	c10Plain["xzsmall"] = nil // filled lazily in c10Scenarios (needs the reference encoder)
 	// content of the two-stream archive "xz2:small"
 	c10Plain["small2"] = append(append([]byte(nil), c10Plain["small"]...), c10Plain["small"]...)
 }
@@ -135,6 +139,9 @@ func c10Content(id string) []byte {
 		// two streams with 8 bytes of stream padding between them and 4 after
 		a := c10Content("xz:" + pid)
 		out = append(append(append(append([]byte(nil), a...), make([]byte, 8)...), a...), make([]byte, 4)...)
+	case "symlink":
+		// a symbolic link to <pid> (recorded by readDir in this form)
+		out = []byte("symlink:" + pid)
 	case "cut":
 		// "cut:<kind>:<pid>:<k>": the first k bytes of another content
 		j := strings.LastIndexByte(pid, ':')
@@ -243,6 +250,14 @@ func c10Scenarios() []C10Scn {
 		Input: "data.xz", Target: "data", Decompress: true, Format: "xz", Plain: "big", InputOK: false, ExpectOK: false, Extra: []string{"good.xz", "good", "good.decompress"}})
 	add(C10Scn{Name: "d-two-files-second-unknown-suffix", Args: []string{"-d", "good.xz", "f.dat"}, Files: []c10File{f("good.xz", "xz:small"), f("f.dat", "xz:small")},
 		Input: "f.dat", Decompress: true, Format: "xz", Plain: "small", InputOK: false, ExpectOK: false, Extra: []string{"good.xz", "good", "good.decompress"}})
+	// symbolic links as operands (gxz, like xz, refuses them without -f and processes the file behind
+	// the link under the link's name with -f): the data behind the link must never be lost - also
+	// when the link points at the very file that carries the output's name
+	c10Plain["xzsmall"] = c10Content("xz:small")
+	add(C10Scn{Name: "z-xz-symlink-refused", Args: []string{"link"}, Files: []c10File{f("data", "plain:small"), f("link", "symlink:data")}, Input: "link", DataFile: "data", Target: "link.xz", Format: "xz", Plain: "small", InputOK: false, ExpectOK: false})
+	add(C10Scn{Name: "z-xz-f-symlink", Args: []string{"-f", "link"}, Files: []c10File{f("data", "plain:small"), f("link", "symlink:data")}, Input: "link", DataFile: "data", Target: "link.xz", Format: "xz", Plain: "small", InputOK: true, ExpectOK: true, EitherExit: true})
+	add(C10Scn{Name: "z-xz-f-symlink-to-target-name", Args: []string{"-f", "report"}, Files: []c10File{f("report.xz", "xz:small"), f("report", "symlink:report.xz")}, Input: "report", DataFile: "report.xz", Target: "report.xz", Format: "xz", Plain: "xzsmall", InputOK: true, ExpectOK: true, EitherExit: true})
+	add(C10Scn{Name: "d-xz-f-symlink", Args: []string{"-d", "-f", "link.xz"}, Files: []c10File{f("data.xz", "xz:small"), f("link.xz", "symlink:data.xz")}, Input: "link.xz", DataFile: "data.xz", Target: "link", Decompress: true, Format: "xz", Plain: "small", InputOK: true, ExpectOK: true, EitherExit: true})
 	add(C10Scn{Name: "d-bare-suffix", Args: []string{"-d", ".xz"}, Files: []c10File{f(".xz", "xz:small")}, Input: ".xz", Decompress: true, Format: "xz", Plain: "small", InputOK: false, ExpectOK: false})
 	return out
 }
@@ -358,6 +373,12 @@ func (e *c10Env) run(s C10Scn, c C10Case) (sysx.Result, dirState, []byte) {
 	work := filepath.Join(dir, "d")
 	os.Mkdir(work, 0o755)
 	for _, f := range s.Files {
+		if strings.HasPrefix(f.Content, "symlink:") {
+			if err := os.Symlink(f.Content[len("symlink:"):], filepath.Join(work, f.Name)); err != nil {
+				panic(err)
+			}
+			continue
+		}
 		if err := os.WriteFile(filepath.Join(work, f.Name), c10Content(f.Content), os.FileMode(f.Mode)); err != nil {
 			panic(err)
 		}
@@ -426,9 +447,21 @@ func (e *c10Env) judge(r *core.Run, s C10Scn, c C10Case, rec []sysx.Call) {
 		r.Violate(cs, site+" → hang@"+phase, desc, "no exit within 20 s", "termination")
 		return
 	}
-	in0 := s.initial(s.Input)
-	inNow, inThere := st[s.Input]
-	inputIntact := inThere && bytes.Equal(inNow, in0)
+	// the user's data: the input file, or - when the input is a symbolic link - the file behind it
+	dataName := s.Input
+	if s.DataFile != "" {
+		dataName = s.DataFile
+	}
+	in0 := s.initial(dataName)
+	inNow, dataThere := st[dataName]
+	inputIntact := dataThere && bytes.Equal(inNow, in0)
+	_, inThere := st[s.Input]
+	if s.DataFile != "" {
+		// the link itself must not be retargeted or replaced by something else
+		if l, ok := st[s.Input]; ok && !bytes.Equal(l, s.initial(s.Input)) {
+			inputIntact = false
+		}
+	}
 	var tgtNow []byte
 	tgtThere := false
 	if s.Target != "" {
@@ -539,7 +572,9 @@ func (e *c10Env) judge(r *core.Run, s C10Scn, c C10Case, rec []sysx.Call) {
 		}
 	} else {
 		outcome = "failed"
-		if !inputIntact {
+		// (when a symbolic link points at the file that carries the output's name, putting the
+		// complete output in place replaces that file: the data is then safe in its new form)
+		if !inputIntact && !(s.DataFile != "" && s.DataFile == s.Target && tgtComplete) {
 			r.Violate(cs, site+" → failed-run-touched-input@"+phase, desc, observed, "input byte-identical")
 		}
 		if tgtThere && !tgtComplete && !(pre != nil && bytes.Equal(tgtNow, pre)) {
